@@ -102,12 +102,14 @@ class Cut:
     """Loop cut at block `block` of function `fn`.
        havoc: list of alloca names whose content is replaced by fresh values (with given bit widths)
        inv(ex, st, frame) -> Bool term ; variant(ex, st, frame) -> Int term (must decrease, stay >= 0)."""
-    def __init__(self, fn, block, havoc, inv, variant=None, name=None, mode="loop"):
+    def __init__(self, fn, block, havoc, inv, variant=None, name=None, mode="loop", havoc_fn=None, on_back=None):
         # mode: 'loop'   - prove inv on entry, havoc, assume inv, run one iteration, prove inv+variant at the back edge
         #       'assert' - prove inv when the block is reached and end the path there
         #       'havoc'  - havoc, assume inv (proved by an 'assert' cut of another run) and continue
         self.fn = fn; self.block = block; self.havoc = havoc; self.inv = inv; self.variant = variant
         self.name = name or ("%s:%s" % (fn, block)); self.mode = mode
+        self.havoc_fn = havoc_fn      # (ex, st, frame): havoc state that is not a named alloca (object fields, logs in st.user)
+        self.on_back = on_back        # (ex, st, frame): extra obligations of one iteration, checked at the back edge
 
 class Result:
     def __init__(self):
@@ -940,6 +942,7 @@ class Executor:
                     hv = self.fresh("h_" + nm.replace(".", "_"), bits)
                     self.inputs[hv.name] = hv
                     self.store_raw(st, p, max(1, bits // 8), hv)
+                if cut.havoc_fn: cut.havoc_fn(self, st, fr)
                 iv = cut.inv(self, st, fr)
                 if isinstance(iv, tuple):
                     self.assume(st, iv[0]); self.assume(st, iv[1], heavy=True)
@@ -950,6 +953,7 @@ class Executor:
             elif cut.mode == "havoc":
                 raise Unsupported("havoc cut %s reached twice" % cut.name)
             else:
+                if cut.on_back: cut.on_back(self, st, fr)
                 self.prove(st, _conj(cut.inv(self, st, fr)), "loop %s: invariant preserved by one iteration" % cut.name)
                 if cut.variant:
                     v1 = cut.variant(self, st, fr)
